@@ -180,6 +180,17 @@ func DecodeNumeric(raw []byte) interface{} {
 	}
 
 	header := u16(raw, 0)
+	if header&0xC000 == 0xC000 {
+		// NUMERIC_SPECIAL: NaN and (PostgreSQL 14+) the infinities have no digits;
+		// report them the way numeric_out prints them, never as a number.
+		switch header {
+		case 0xD000:
+			return "Infinity"
+		case 0xF000:
+			return "-Infinity"
+		}
+		return "NaN"
+	}
 	if header&0x8000 != 0 {
 		return decodeNumericShort(raw, header)
 	}
